@@ -9,6 +9,7 @@
 From TSG Require Import Model.Lazy Model.Stdlib Proofs.BaseFacts Proofs.Containers Proofs.MonadFacts Proofs.StrictMeta
   Proofs.SLGraph Proofs.SLForce Proofs.SLExpr Proofs.SLConv Proofs.SLStmt Proofs.StrictLazy Proofs.Extends
   Proofs.SLFailGraph Proofs.SLFailStore Proofs.SLFailEval Proofs.SLFailExpr.
+From TSG Require Proofs.NoPanicStrict Proofs.NoPanicLazy.
 
 Lemma FrP_eq_prefix s s' : FrP (@eq (list lstmt)) s s' -> FrP (@prefix lstmt) s s'.
 Proof. intros (H1 & H2 & H3 & H4). split; [exact H1|]. rewrite H2, H3, H4. repeat split; apply prefix_refl. Qed.
@@ -616,6 +617,26 @@ Proof.
   destruct Hx as [Hb1 HD1].
   pose proof (evaluate_doomed call Hcall t fl (lfuel + default_eval_fuel) ls1 pl1 HD1 Hb1) as Hv.
   destruct (evaluate_phase t fl call (lfuel + default_eval_fuel) ls1 pl1) as [[[u2 ls2] pl2]|e2|x2|]; cbn in Hv; [contradiction|exact I|exact I|exact I].
+Qed.
+
+(* with the hypotheses of the no-panic theorem of the lazy interpreter (Proofs/NoPanicLazy.v): lazy execution fails, or
+   the model runs out of fuel *)
+Theorem strict_fail_lazy_err_lemma {rx : Type} (sok : N -> Prop) t fl supplied (regexes : list rx) find call (okfn : ident -> Prop) fuel ms g0 e :
+  (forall f, okfn f -> pure_fn call f) -> (forall f, okfn f -> pure_err_fn call f) -> call_graph_ext call ->
+  file_ok okfn fl (f_stanzas fl) ms ->
+  NoPanicStrict.WellFormedFile regexes fl -> NoPanicLazy.GoodMatchesLazy sok fl (lmatches_of ms) -> NoPanicStrict.GoodGlobals sok g0 supplied ->
+  NoPanicStrict.GoodCall sok call ->
+  run_strict t fl config0 supplied None regexes find call fuel ms g0 = Err e -> okerr e ->
+  forall lfuel,
+    match run_lazy t fl config0 supplied None regexes find call lfuel (lmatches_of ms) g0 with
+    | Err _ | OutOfFuel => True
+    | Ok _ | Panic _ => False
+    end.
+Proof.
+  intros Hpure Hperr Hcall Hok Hwf Hm Hg Hgc Hs Ho lfuel.
+  pose proof (strict_fail_lazy_fail_lemma t fl supplied regexes find call okfn fuel ms g0 e Hpure Hperr Hcall Hok Hs Ho lfuel) as H1.
+  pose proof (NoPanicLazy.exec_no_panic_lazy sok t fl config0 supplied None regexes find call lfuel (lmatches_of ms) g0 Hwf Hm Hg Hgc) as H2.
+  destruct (run_lazy t fl config0 supplied None regexes find call lfuel (lmatches_of ms) g0) as [r|e1|x|]; [contradiction|exact I|exact (H2 x eq_refl)|exact I].
 Qed.
 
 (* ---------------- the standard library ---------------- *)
